@@ -5,6 +5,8 @@ import sys, json, re
 pid, txt = sys.argv[1], " ".join(open(sys.argv[2]).read().split())
 d = open('/verif/DESIGN.md').read()
 m = re.search(r"^### %s .*?\n\n(\*As built\*.*?)\n\n" % pid, d, re.S | re.M)
+if not m:
+    m = re.search(r"^### %s .*?\n\n(.*?)\n\n" % pid, d, re.S | re.M)  # first paragraph of the section
 assert m, "section not found"
 end = m.end(1)
 d = d[:end] + " *Session 4:* " + txt + d[end:]
